@@ -10,7 +10,7 @@ use crate::{
     Complement, ComplementMut, Reverse, ReverseComplement, ReverseComplementMut, ReverseMut,
 };
 
-use crate::Bs;
+use crate::{Bs, Bv};
 use bitvec::field::BitField;
 
 use core::fmt;
@@ -148,9 +148,12 @@ impl<A: Codec> ToOwned for SeqSlice<A> {
     type Owned = Seq<A>;
 
     fn to_owned(&self) -> Self::Owned {
+        // copy into a fresh vector so the owned sequence starts at bit 0 of word 0
+        let mut bv = Bv::with_capacity(self.bs.len());
+        bv.extend_from_bitslice(&self.bs);
         Seq {
             _p: PhantomData,
-            bv: self.bs.into(),
+            bv,
         }
     }
 }
@@ -171,7 +174,8 @@ impl<A: Codec> BitAnd for &SeqSlice<A> {
     type Output = Seq<A>;
 
     fn bitand(self, rhs: Self) -> Self::Output {
-        let mut bv = self.bs.to_bitvec();
+        let mut bv = Bv::with_capacity(self.bs.len());
+        bv.extend_from_bitslice(&self.bs);
         bv &= &rhs.bs;
         Seq::<A> {
             bv,
@@ -184,7 +188,8 @@ impl<A: Codec> BitOr for &SeqSlice<A> {
     type Output = Seq<A>;
 
     fn bitor(self, rhs: Self) -> Self::Output {
-        let mut bv = self.bs.to_bitvec();
+        let mut bv = Bv::with_capacity(self.bs.len());
+        bv.extend_from_bitslice(&self.bs);
         bv |= &rhs.bs;
 
         Seq::<A> {
